@@ -48,6 +48,22 @@ CLAIMED = {
             "different units included): comparisons, and + - / under catch_unwind; the documented panic must occur exactly "
             "when units differ.",
             TRUST_E1, "5.10"),
+    "C07": (E1, "exhaustive enumeration of the finite unit catalogue against an independently written definition table chained with exact rationals",
+            "The domain is finite and is enumerated completely: every unit of every predefined and synthetic quantity in "
+            "both back-ends, every accessor, every pair of SI-prefixed units.",
+            TRUST_E1 + " The tables are definition chains from the standards, not copies of the crate's numbers.", "5.7"),
+    "C09": (E1, "exhaustive enumeration of registry sequences and lookup inputs (declared values plus systematically generated near misses) against a model-computed order",
+            "Every type's iteration sequence and every lookup over all declared symbols/scales and all generated near "
+            "misses; the expected order and first-match results are computed by the model, not by the lookup code. The "
+            "upper-snake-case constants are probed by compiling one program per unit (E2).",
+            TRUST_E1, "5.9"),
+    "C16": (E1, "exhaustive enumeration of the finite input domains (all i8, all short strings over the abbreviation alphabet)",
+            "Complete over all 25 prefixes, all 256 exponents and all strings of length <= 2 (thorough: <= 3) over an "
+            "alphabet that contains every abbreviation character, its case swaps and the micro-sign look-alike.",
+            "Trusted: the SI-brochure prefix table in data/catalogue.json.", "5.16"),
+    "C17": (E1, "exhaustive enumeration of (unit, amount) states through three serde channels on the real code with a bit-exact round-trip oracle and a collision table for injectivity",
+            "All catalogue units x value and adversarial amount alphabets, both back-ends, three channels; bit-exact oracle.",
+            TRUST_E1 + " serde / serde_json are trusted.", "5.17"),
 }
 
 PENDING_REASON = "check not built yet in this revision of /verif (see DESIGN.md section 5 for the planned exploration)"
